@@ -65,7 +65,7 @@ fn djb2(b: &[u8]) -> u32 {
     h
 }
 
-pub const NAMES: [&str; 13] = ["byte-sum", "byte-xor", "siphash-write-lo32", "siphash-write-hi32", "siphash-hash-lo32", "siphash-hash-hi32", "fnv1a32", "crc32", "adler32", "djb2", "first8", "last8", "sum+xor"];
+pub const NAMES: [&str; 13] = ["byte-sum", "byte-xor", "siphash-write-lo32", "siphash-write-hi32", "siphash-hash-lo32", "siphash-hash-hi32", "fnv1a32", "crc32", "adler32", "djb2", "first8", "head32+tail8", "sum+xor"];
 
 /// All fingerprints of a byte string, in the order of `NAMES`.
 pub fn fingerprints(b: &[u8]) -> [u64; 13] {
@@ -75,7 +75,14 @@ pub fn fingerprints(b: &[u8]) -> [u64; 13] {
     let h = dh_hash(b);
     debug_assert_eq!(h, dh_vec(b));
     let first8 = b.iter().take(8).fold(0u64, |a, &x| (a << 8) | x as u64);
-    let last8 = b.iter().rev().take(8).fold(0u64, |a, &x| (a << 8) | x as u64);
+    // first 32 and last 8 bytes together (the middle of the string is ignored); for strings of
+    // at most 40 bytes this is the whole string
+    let last8 = {
+        let mut h = std::collections::hash_map::DefaultHasher::new();
+        h.write(&b[..b.len().min(32)]);
+        h.write(&b[b.len().saturating_sub(8)..]);
+        h.finish()
+    };
     [sum, xor, w & 0xffff_ffff, w >> 32, h & 0xffff_ffff, h >> 32, fnv1a32(b) as u64, crc32(b) as u64, adler32(b) as u64, djb2(b) as u64, first8, last8, (sum << 8) | xor]
 }
 
